@@ -329,7 +329,7 @@ class Client:
         m = self.__size_expr.match(text)
         if m is not None:
             self.errcode = b""
-            self.errmsg = self.__read_block(int(m.group(1)) + 2)
+            self.errmsg = self.__read_block(int(m.group(1)) + 2)[:-2]
             return
 
         m = self.__error_expr.match(text)
